@@ -260,13 +260,28 @@ func ReadPatchString(s string) (Diff, error) {
 			i := len(diff) - 1
 			if diff[i].Path.JsonNode().Equals(e.Path.JsonNode()) {
 				diff[i].Remove = append(diff[i].Remove, e.Remove...)
-				// Must be done in reverse order
-				diff[i].Add = append(e.Add, diff[i].Add...)
+				if isAppendPath(e.Path) {
+					// Appends to the end ("-") happen in order
+					diff[i].Add = append(diff[i].Add, e.Add...)
+				} else {
+					// Must be done in reverse order
+					diff[i].Add = append(e.Add, diff[i].Add...)
+				}
 			} else {
 				diff = append(diff, e)
 			}
 		}
 	}
+}
+
+// isAppendPath reports whether a path ends in the append index (-1),
+// which is how the JSON Pointer token "-" is read.
+func isAppendPath(p Path) bool {
+	if len(p) == 0 {
+		return false
+	}
+	i, ok := p[len(p)-1].(PathIndex)
+	return ok && int(i) == -1
 }
 
 // setPatchDiffElementContext detects before and/or after context and
